@@ -122,6 +122,15 @@ func (dsm *DsManager) CreateDataset(name string, createDatasetConfig *CreateData
 
 	// create a new one
 	ds := NewDataset(dsm.store, name, dsm.store.nextDatasetID, "http://data.mimiro.io/datasets/"+name)
+	// writers get hold of the dataset as soon as it is published below. They update the item counter in its
+	// core.Dataset entity, so they have to wait until that entity exists
+	// (core.Dataset holds these entities itself, its own one is written below through its write lock)
+	if name != datasetCore {
+		verifhook.Acquire(dsm.store.database, "dataset.write", ds)
+		ds.WriteLock.Lock()
+		defer verifhook.Release(dsm.store.database, "dataset.write", ds)
+		defer ds.WriteLock.Unlock()
+	}
 
 	// store next dataset-id
 	dsm.store.nextDatasetID++
@@ -263,6 +272,12 @@ func (dsm *DsManager) DeleteDataset(name string) error {
 	}
 
 	existingDataset := dsm.GetDataset(name)
+	// a writer in the middle of a batch finishes first, counter update in core.Dataset included; the ones
+	// that come after see the mark and leave core.Dataset alone
+	verifhook.Acquire(dsm.store.database, "dataset.write", existingDataset)
+	existingDataset.WriteLock.Lock()
+	defer verifhook.Release(dsm.store.database, "dataset.write", existingDataset)
+	defer existingDataset.WriteLock.Unlock()
 	existingDataset.markedForDeletion = true
 
 	// record we deleted it.
